@@ -2,11 +2,15 @@
 
 package protocol
 
+import "github.com/postalsys/muti-metroo/internal/identity"
+
 // Round-trip lemmas for /verif (govc): each function decodes what the real
 // encoder produced; its contract (zz_verif_contracts.go) states that the
 // result equals the input message. The verifier checks the lemma against the
 // contracts of the encoder and the decoder, which are themselves proved on the
-// real bodies. Compiled only with -tags verif; never called.
+// real bodies. The zzEnc.../zzDec... functions are forwarding wrappers (views): the
+// same encoder or decoder under a contract that keeps only the facts of one
+// field. Compiled only with -tags verif; never called.
 
 func zzRoundTripKeepalive(k *Keepalive) (*Keepalive, error) { return DecodeKeepalive(k.Encode()) }
 
@@ -32,4 +36,98 @@ func zzRoundTripSleepCommand(s *SleepCommand) (*SleepCommand, error) {
 
 func zzRoundTripWakeCommand(w *WakeCommand) (*WakeCommand, error) {
 	return DecodeWakeCommand(w.Encode())
+}
+
+func zzRoundTripUDPOpen(u *UDPOpen) (*UDPOpen, error) { return DecodeUDPOpen(u.Encode()) }
+
+func zzRoundTripUDPOpenAck(u *UDPOpenAck) (*UDPOpenAck, error) { return DecodeUDPOpenAck(u.Encode()) }
+
+func zzRoundTripUDPOpenErr(u *UDPOpenErr) (*UDPOpenErr, error) { return DecodeUDPOpenErr(u.Encode()) }
+
+func zzRoundTripUDPDatagram(u *UDPDatagram) (*UDPDatagram, error) {
+	return DecodeUDPDatagram(u.Encode())
+}
+
+func zzEncUDPDatagramData(u *UDPDatagram) []byte { return u.Encode() }
+
+func zzDecUDPDatagramData(buf []byte) (*UDPDatagram, error) { return DecodeUDPDatagram(buf) }
+
+func zzRoundTripUDPDatagramData(u *UDPDatagram) (*UDPDatagram, error) {
+	return zzDecUDPDatagramData(zzEncUDPDatagramData(u))
+}
+
+func zzRoundTripUDPClose(u *UDPClose) (*UDPClose, error) { return DecodeUDPClose(u.Encode()) }
+
+func zzRoundTripICMPClose(i *ICMPClose) (*ICMPClose, error) { return DecodeICMPClose(i.Encode()) }
+
+func zzRoundTripICMPOpenAck(i *ICMPOpenAck) (*ICMPOpenAck, error) {
+	return DecodeICMPOpenAck(i.Encode())
+}
+
+func zzRoundTripICMPOpenErr(i *ICMPOpenErr) (*ICMPOpenErr, error) {
+	return DecodeICMPOpenErr(i.Encode())
+}
+
+func zzRoundTripICMPOpen(i *ICMPOpen) (*ICMPOpen, error) { return DecodeICMPOpen(i.Encode()) }
+
+func zzRoundTripICMPEcho(i *ICMPEcho) (*ICMPEcho, error) { return DecodeICMPEcho(i.Encode()) }
+
+func zzRoundTripControlRequest(c *ControlRequest) (*ControlRequest, error) {
+	return DecodeControlRequest(c.Encode())
+}
+
+func zzEncControlRequestData(c *ControlRequest) []byte { return c.Encode() }
+
+func zzRoundTripControlRequestData(c *ControlRequest) (*ControlRequest, error) {
+	return DecodeControlRequest(zzEncControlRequestData(c))
+}
+
+func zzRoundTripControlResponse(c *ControlResponse) (*ControlResponse, error) {
+	return DecodeControlResponse(c.Encode())
+}
+
+func zzRoundTripPath(path []identity.AgentID) ([]identity.AgentID, error) {
+	return DecodePath(EncodePath(path))
+}
+
+func zzRoundTripEncryptedData(e *EncryptedData) (*EncryptedData, int, error) {
+	return DecodeEncryptedData(EncodeEncryptedData(e))
+}
+
+func zzRoundTripDomainPrefix(pattern string) string {
+	return DecodeDomainPrefix(EncodeDomainPrefix(pattern))
+}
+
+func zzRoundTripForwardKey(key string) string { return DecodeForwardKey(EncodeForwardKey(key)) }
+
+func zzRoundTripForwardKeyWithTarget(key, target string) (k2, t2 string) {
+	return DecodeForwardKeyAndTarget(EncodeForwardKeyWithTarget(key, target))
+}
+
+func zzRoundTripAgentPrefix(agentID identity.AgentID) identity.AgentID {
+	return DecodeAgentPrefix(EncodeAgentPrefix(agentID))
+}
+
+func zzRoundTripFrame(f *Frame) (*Frame, error) {
+	b, err := f.Encode()
+	if err != nil {
+		return nil, err
+	}
+	return Decode(b)
+}
+
+func zzEncUDPDatagramAddr(u *UDPDatagram) []byte { return u.Encode() }
+
+func zzDecUDPDatagramAddr(buf []byte) (*UDPDatagram, error) { return DecodeUDPDatagram(buf) }
+
+func zzRoundTripUDPDatagramAddr(u *UDPDatagram) (*UDPDatagram, error) {
+	return zzDecUDPDatagramAddr(zzEncUDPDatagramAddr(u))
+}
+
+func zzEncICMPEchoData(i *ICMPEcho) []byte { return i.Encode() }
+
+func zzDecICMPEchoData(buf []byte) (*ICMPEcho, error) { return DecodeICMPEcho(buf) }
+
+func zzRoundTripICMPEchoData(i *ICMPEcho) (*ICMPEcho, error) {
+	return zzDecICMPEchoData(zzEncICMPEchoData(i))
 }
